@@ -9,7 +9,8 @@ import (
 // Entry point to typecheck programs
 func Typecheck(processes []*Process, assumedFreeNames []Name, globalEnv *GlobalEnvironment) error {
 	errorChan := make(chan error)
-	doneChan := make(chan bool)
+	// Buffered, so that the worker can always terminate (also after it reported an error)
+	doneChan := make(chan bool, 1)
 
 	globalEnv.log(LOGINFO, "Initiating typechecking")
 
@@ -40,16 +41,19 @@ func typecheckFunctionsAndProcesses(processes []*Process, assumedFreeNames []Nam
 	// Start with some preliminary check on the labelled types
 	if err := preliminaryTypesDefinitionsChecks(globalEnv); err != nil {
 		errorChan <- err
+		return
 	}
 
 	// Check that function definitions are well formed
 	if err := preliminaryFunctionDefinitionsChecks(globalEnv); err != nil {
 		errorChan <- err
+		return
 	}
 
 	// Check that processes are well formed
 	if err := preliminaryProcessesChecks(processes, assumedFreeNames, globalEnv); err != nil {
 		errorChan <- err
+		return
 	}
 
 	globalEnv.log(LOGRULEDETAILS, "Preliminary checks ok")
@@ -61,6 +65,7 @@ func typecheckFunctionsAndProcesses(processes []*Process, assumedFreeNames []Nam
 	// Typecheck function definitions
 	if err := typecheckFunctionDefinitions(globalEnv); err != nil {
 		errorChan <- err
+		return
 	}
 
 	globalEnv.log(LOGRULEDETAILS, "Function declarations typecheck ok")
@@ -68,6 +73,7 @@ func typecheckFunctionsAndProcesses(processes []*Process, assumedFreeNames []Nam
 	// Typecheck process definitions
 	if err := typecheckProcesses(processes, assumedFreeNames, globalEnv); err != nil {
 		errorChan <- err
+		return
 	}
 
 	globalEnv.log(LOGRULEDETAILS, "Process declarations typecheck ok")
